@@ -104,6 +104,8 @@ func evRender(lets []evLet, kinds map[string]string) string {
 			e = a(0) + ".b"
 		case "mapt":
 			e = a(0) + " -> <sequence of int>(e:\n" + ind + "  entry = e\n" + ind + "  k = e.key\n" + ind + "  w = e.value + " + a(1) + "\n" + ind + ")"
+		case "call":
+			e = "H(" + a(0) + ", " + a(1) + ")"
 		case "tset":
 			e = a(0) + " -> <set of int>(x:\n" + ind + "  id = x\n" + ind + "  twice = x * 2\n" + ind + "  tag = " + a(1) + "\n" + ind + ")"
 		case "tform", "tconst":
@@ -125,6 +127,8 @@ func evRender(lets []evLet, kinds map[string]string) string {
 		b.WriteString(ind + "out_" + l.V + " = " + l.V + "\n")
 	}
 	b.WriteString("    )\n")
+	// the helper view called by the operator "call": its own let is named like the caller's first variable
+	b.WriteString("  !view H(a <: int, b <: int) -> int:\n    a -> (:\n      let v1 = a * 2\n      total = v1 + b\n    )\n")
 	return b.String()
 }
 
